@@ -278,7 +278,15 @@ fn run_ref_choice(case: &Case, lit: &str, refs: &[RefSpec], tail: &str, ctx: &mu
         let mut c = m.deep_clone();
         ctx.eval(1);
         if let Err(e) = c.consume_token(t) {
-            return ctx.fail("C19/reference-position-mask-differs", || format!("grammar {} after tokens {:?}: denoted token {} does not commit: {}", gtxt, toks, t, short_err(&e.to_string())));
+            // known finding: the references denote exactly one token and it is an ordinary (non-special) one: the
+            // canonical-tokenizer path forces the marker form "\xFF[id]" as text and then rejects the token's own bytes
+            let es = e.to_string();
+            let key = if want.len() == 1 && !is_markerish(&vocab, t) && es.contains("forced bytes: got") {
+                "C19/forced-id-reference-to-ordinary-token-does-not-commit"
+            } else {
+                "C19/reference-position-mask-differs"
+            };
+            return ctx.fail(key, || format!("grammar {} after tokens {:?}: denoted token {} {:?} does not commit: {}", gtxt, toks, t, esc(vocab.bytes(t)), short_err(&es)));
         }
     }
     Ok(())
